@@ -367,9 +367,12 @@ func (this *BWT) inverseBiPSIv2(src, dst []byte, count int) (uint, uint, error) 
 	}
 
 	pIdx := int(this.PrimaryIndex(0))
+	chunks := GetBWTChunks(count)
 
-	if pIdx > len(src) {
-		return 0, 0, errors.New("Invalid input: corrupted BWT primary index")
+	for i := 0; i < chunks; i++ {
+		if p := this.PrimaryIndex(i); p == 0 || p > uint(count) {
+			return 0, 0, errors.New("Invalid input: corrupted BWT primary index")
+		}
 	}
 
 	freqs := [256]int{}
@@ -470,8 +473,6 @@ func (this *BWT) inverseBiPSIv2(src, dst []byte, count int) (uint, uint, error) 
 		}
 	}
 
-	chunks := GetBWTChunks(count)
-
 	// Build inverse
 	// Several chunks may be decoded concurrently (depending on the availability
 	// of jobs for this block).
@@ -484,28 +485,46 @@ func (this *BWT) inverseBiPSIv2(src, dst []byte, count int) (uint, uint, error) 
 	nbTasks := min(int(this.jobs), chunks)
 	jobsPerTask, _ := internal.ComputeJobsPerTask(make([]uint, nbTasks), uint(chunks), uint(nbTasks))
 	var wg sync.WaitGroup
+	errs := make([]error, nbTasks)
 
 	for j, c := 0, 0; j < nbTasks; j++ {
 		wg.Add(1)
 		start := c * ckSize
 
-		go func(dst []byte, buckets []int, fastBits []uint16, indexes []uint, total, start, ckSize, firstChunk, lastChunk int) {
-			this.inverseBiPSIv2Task(dst, buckets, fastBits, indexes, total, start, ckSize, firstChunk, lastChunk)
-			wg.Done()
-		}(dst, buckets[:], fastBits, this.primaryIndexes[:], count, start, ckSize, c, c+int(jobsPerTask[j]))
+		go func(err *error, dst []byte, buckets []int, fastBits []uint16, indexes []uint, total, start, ckSize, firstChunk, lastChunk int) {
+			defer wg.Done()
+
+			// A panic in this goroutine would not be caught by the caller
+			defer func() {
+				if r := recover(); r != nil {
+					*err = fmt.Errorf("BWT inverse transform failed: %v", r)
+				}
+			}()
+
+			*err = this.inverseBiPSIv2Task(dst, buckets, fastBits, indexes, total, start, ckSize, firstChunk, lastChunk)
+		}(&errs[j], dst, buckets[:], fastBits, this.primaryIndexes[:], count, start, ckSize, c, c+int(jobsPerTask[j]))
 
 		c += int(jobsPerTask[j])
 	}
 
 	wg.Wait()
 
+	for _, err := range errs {
+		if err != nil {
+			return 0, 0, err
+		}
+	}
+
 	dst[count-1] = byte(lastc)
 	return uint(count), uint(count), nil
 }
 
-func (this *BWT) inverseBiPSIv2Task(dst []byte, buckets []int, fastBits []uint16, indexes []uint, total, start, ckSize, firstChunk, lastChunk int) {
+func (this *BWT) inverseBiPSIv2Task(dst []byte, buckets []int, fastBits []uint16, indexes []uint, total, start, ckSize, firstChunk, lastChunk int) error {
 	data := this.buffer
 	shift := uint(0)
+	// A valid position is in [0..total]. Anything else (corrupted primary index)
+	// would overflow fastBits or make the bucket scan (max bucket is total+1) endless.
+	n := uint(total)
 
 	for (total >> shift) > _BWT_MASK_FASTBITS {
 		shift++
@@ -534,6 +553,10 @@ func (this *BWT) inverseBiPSIv2Task(dst []byte, buckets []int, fastBits []uint16
 			p7 := int(indexes[c+7])
 
 			for i := start + 1; i <= end; i += 2 {
+				if uint(p0) > n || uint(p1) > n || uint(p2) > n || uint(p3) > n || uint(p4) > n || uint(p5) > n || uint(p6) > n || uint(p7) > n {
+					return errors.New("BWT inverse transform failed: corrupted BWT primary index")
+				}
+
 				s0 := fastBits[p0>>shift]
 				s1 := fastBits[p1>>shift]
 				s2 := fastBits[p2>>shift]
@@ -611,6 +634,10 @@ func (this *BWT) inverseBiPSIv2Task(dst []byte, buckets []int, fastBits []uint16
 		p := int(indexes[c])
 
 		for i := start + 1; i <= end; i += 2 {
+			if uint(p) > n {
+				return errors.New("BWT inverse transform failed: corrupted BWT primary index")
+			}
+
 			s := fastBits[p>>shift]
 
 			for buckets[s] <= p {
@@ -625,6 +652,8 @@ func (this *BWT) inverseBiPSIv2Task(dst []byte, buckets []int, fastBits []uint16
 		start = end
 		c++
 	}
+
+	return nil
 }
 
 // GetBWTChunks returns the number of chunks for a given block size
